@@ -1769,3 +1769,59 @@ func isFieldRead(v ssa.Value, name string) bool {
 	}
 	return false
 }
+
+// ruleResumeConvention: F88. Whether a resume delivers "true/false, values…" or plain values (and raises
+// errors) is a property of the resume — made through coroutine.resume / LState.Resume or through the
+// function coroutine.wrap returned — not of the thread: a thread created by wrap can be resumed by hand
+// after coroutine.running() handed it out. Every function that runs a thread therefore sets the
+// thread's convention flag before it runs it, and nobody else writes the flag.
+func ruleResumeConvention(c *Ctx) {
+	const R = "R06-resumeapi"
+	p := c.P
+	run := c.need(R, "lua", "threadRun")
+	fld := p.Field("lua", "LState", "wrapped")
+	if run == nil || fld == nil {
+		c.und(R, "result-convention", "-", "threadRun or the convention flag of LState not found")
+		return
+	}
+	resumer := map[*ssa.Function]bool{}
+	for _, f := range p.srcFuncs {
+		if f.Pkg == nil || f.Pkg.Pkg.Path() != luaPath {
+			continue
+		}
+		calls := callsTo(f, run)
+		if len(calls) == 0 {
+			continue
+		}
+		resumer[f] = true
+		g := p.G(f)
+		for i, cl := range calls {
+			th := cl.Call.Args[0]
+			set := false
+			allInstrs(f, func(in ssa.Instruction) {
+				if st, ok := isFieldStore(in, fld); ok && st.Addr.(*ssa.FieldAddr).X == th && g.Dominates(in, cl) {
+					set = true
+				}
+			})
+			c.Sites++
+			c.check(set, R, fmt.Sprintf("%s:sets-result-convention-for-this-resume#%d", fname(f), i+1), p.ipos(cl), "the thread's convention flag is written before the thread runs", fname(f)+" runs a thread without saying how this resume expects its results: the flag left by whoever created or last resumed the thread decides — a thread made by coroutine.wrap that is resumed with coroutine.resume(co) returns its values without the leading true, and LState.Resume misreads the first value as the status")
+		}
+	}
+	// nobody else writes it (a composite literal's zero initialisation is not a store to the field of a live thread)
+	for _, f := range p.srcFuncs {
+		if f.Pkg == nil || f.Pkg.Pkg.Path() != luaPath || resumer[f] {
+			continue
+		}
+		allInstrs(f, func(in ssa.Instruction) {
+			st, ok := isFieldStore(in, fld)
+			if !ok {
+				return
+			}
+			if _, fresh := st.Addr.(*ssa.FieldAddr).X.(*ssa.Alloc); fresh {
+				return
+			}
+			c.Sites++
+			c.bad(R, "result-convention-written-outside-a-resume:"+fname(f), p.ipos(in), fname(f)+" writes the result-convention flag of a thread outside a resume: the flag then describes the thread instead of the pending resume (coroutine.wrap marking the thread for good is the defect F88)")
+		})
+	}
+}
